@@ -78,6 +78,8 @@ def classify(c):
         if lb_predicate(c["args"], c["go"]):
             return dict(layer="correspondence", what="LeastBytes: model and code differ (tie-break?) but every pick was a minimum", input=None)
         return dict(layer="property", what="LeastBytes picked a partition that did not have the fewest bytes", input=c)
+    if op == "wrt":
+        return dict(layer="property", what="messages written through a kafka.Writer (default balancer or RoundRobin{ChunkSize}) over several WriteMessages calls did not reach the partitions in round-robin order across the calls", input=c)
     if op == "hashconc":
         return dict(layer="property", what="a key-hashing balancer with its default hasher, shared by concurrent callers, returned a partition that differs from the one the same call returns sequentially (not a pure function of key and partition count)", input=c)
     if op == "parts":
